@@ -447,8 +447,11 @@ def _c13_predicates(rep, t, x, case, tag, completed):
                 if dm != want:
                     rep.violation("failure_shrinks", "bads.py:_poll_step_", f"iteration {k}: failed poll changed msi by {dm}, expected {want}; {tag}", case)
                     return
-    if completed and msg_kind(t["final"]["msg"]) == "tol_mesh" and not t["final"]["mesh_size"] < t["hdr"]["tol_mesh"]:
-        rep.violation("tolmesh_msg", "bads.py:optimize", f"stopped by tol_mesh with mesh_size={t['final']['mesh_size']} >= {t['hdr']['tol_mesh']}; {tag}", case)
+    # ... below the tolerance the USER set (options['tol_mesh']), not merely below whatever the run derived from it
+    user_tol = t["hdr"]["opts"].get("tol_mesh")
+    tol_ref = min(t["hdr"]["tol_mesh"], float(user_tol)) if user_tol is not None and float(user_tol) > 0 else t["hdr"]["tol_mesh"]
+    if completed and msg_kind(t["final"]["msg"]) == "tol_mesh" and not t["final"]["mesh_size"] < tol_ref:
+        rep.violation("tolmesh_msg", "bads.py:optimize", f"stopped by tol_mesh with mesh_size={t['final']['mesh_size']} >= {tol_ref} (options['tol_mesh'] = {user_tol}); {tag}", case)
 
 
 def _dec(s):
@@ -601,6 +604,12 @@ def pipe_replay(ctx, rep, pid):
                 if not cr["x_eq"]:
                     rep.disagree("Pipe.inverse ~ inverse_transf", f"{what}: x is not clamp(ginv(u)); {tag}", case)
                     break
+        if pid == "C01" and t.get("result") and t["result"].get("x") is not None and t["error"] is None:
+            rx = t["result"]["x"] if isinstance(t["result"]["x"], list) else [t["result"]["x"]]
+            if any(not (lo <= v <= hi) for v, lo, hi in zip(rx, hdr["orig_lb"], hdr["orig_ub"])):
+                rep.violation("orig_box", "optimize_result.py:x", f"the x of the returned OptimizeResult ({rx}) lies outside the hard bounds; {tag}", case)
+            elif t["final"].get("x") is not None and [float(v) for v in rx] != [float(v) for v in t["final"]["x"]]:
+                rep.disagree("Pipe.inverse ~ result['x']", f"result['x'] = {rx} differs from the optimizer's final point {t['final']['x']}; {tag}", case)
         if pid == "C01":
             # constraint function inputs and the logged pairs
             for X, C, ph in t.get("cons_calls", []):
@@ -629,8 +638,15 @@ def pipe_replay(ctx, rep, pid):
                 from .. import gen as _g
                 _, _, _, _, _, _, cons_fn, _, _ = _g.build(sp)
                 import numpy as np
-                if float(np.asarray(cons_fn(np.array([t["final"]["x"]]))).reshape(-1)[0]) > 0:
-                    rep.violation("infeasible_result", "bads.py:optimize result", f"returned x violates the non-box constraint; {tag}", case)
+                # both the optimizer's own final point and the x of the OptimizeResult handed to the caller
+                xs_ret = [("the optimizer's final point", t["final"]["x"])]
+                if t.get("result") and t["result"].get("x") is not None:
+                    rx = t["result"]["x"]
+                    xs_ret.append(("result['x']", rx if isinstance(rx, list) else [rx]))
+                for what_x, xv in xs_ret:
+                    if float(np.asarray(cons_fn(np.array([xv], dtype=float))).reshape(-1)[0]) > 0:
+                        rep.violation("infeasible_result", "bads.py:optimize result / optimize_result.py", f"returned x ({what_x} = {xv}) violates the non-box constraint; {tag}", case)
+                        break
         if len(samples) < 2:
             samples.append({"spec": sp, "n_steps": len(steps), "n_calls": len(calls), "first_steps": [{k: v for k, v in s.items() if not k.startswith("_") and k not in ("U", "logX")} for s in steps[:4]]})
     return stats, samples
